@@ -22,10 +22,19 @@ token sequences (tokens separated by blanks):
   interval <int>     -> s<hex> ok <int> | s<hex> err <kind>      (String, then ValueOf of it)
   valueof s<hex>     -> ok <int> | err <kind>
 
+  wseq <n> json*n    -> <res> ; <res> ; ...   (a request history on one worker, fresh scratch)
+  qinto query json   -> ok query | err <kind>    (UnmarshalJSON into an existing receiver)
+  duration s<hex> <T_SECOND|...|none> -> ok <int> | err range | err syntax   (parseDuration)
+  limit s<hex>       -> ok <int> | err range | err syntax                    (visitLimit)
+  cond  := atom <eq|neq|like|notlike|regex|neqregex|in|notin> x<key> <n> x<v>*n | paren cond
+         | bin <int> cond cond
+  cond cond          -> c <0|1> [expr] stack <n>   (the where-condition stack machine on the walk)
+
 Strings are the hex of their UTF-8 bytes. Unknown / ill-formed lines answer `bad-op`.
 -/
 import LinVerif.Util.Proto
 import LinVerif.Model.Stmt
+import LinVerif.Model.StmtGlue
 
 namespace LinVerif.Driver.C17
 open LinVerif LinVerif.Json LinVerif.Stmt
@@ -283,10 +292,74 @@ def showRes {α : Type} (f : α → String) : Except Err α → String
   | .ok a => "ok " ++ f a
   | .error e => showErr e
 
+
+/-! ### round 8: worker histories, receivers, parser glue -/
+
+def pAtomKind : P AtomKind
+  | "eq" :: ws => some (.eq, ws) | "neq" :: ws => some (.neq, ws)
+  | "like" :: ws => some (.like, ws) | "notlike" :: ws => some (.notLike, ws)
+  | "regex" :: ws => some (.regex, ws) | "neqregex" :: ws => some (.neqRegex, ws)
+  | "in" :: ws => some (.inList, ws) | "notin" :: ws => some (.notIn, ws)
+  | _ => none
+
+partial def pCond : P Cond
+  | "atom" :: ws => do
+    let (k, ws) ← pAtomKind ws
+    let (key, ws) ← pStr 'x' ws
+    let (n, ws) ← pNat ws
+    let (vs, ws) ← pMany (pStr 'x') n ws
+    some (.atom k key vs, ws)
+  | "paren" :: ws => do let (c, ws) ← pCond ws; some (.paren c, ws)
+  | "bin" :: ws => do
+    let (op, ws) ← pInt ws
+    let (l, ws) ← pCond ws
+    let (r, ws) ← pCond ws
+    some (.bin op l r, ws)
+  | _ => none
+
+def showGlue : Except GlueErr Int → String
+  | .ok v => s!"ok {v}"
+  | .error .syntax => "err syntax"
+  | .error .range => "err range"
+  | .error .timeOrder => "err time-order"
+
+def unitOfToken (t : String) : Option (Option Int) :=
+  if t = "none" then some none
+  else (durationUnitTable.find? (fun p => p.1 == t)).map (fun p => some p.2)
+
+def stepGlue (ws : List String) : Option String :=
+  match ws with
+  | "wseq" :: rest =>
+    match whole (fun ws => do let (n, ws) ← pNat ws; pMany pJson n ws) rest with
+    | some js => some (" ; ".intercalate ((Worker.run .fresh ⟨[]⟩ js).map (showRes showQuery)))
+    | none => none
+  | "qinto" :: rest =>
+    match whole (fun ws => do let (q, ws) ← pQuery ws; let (j, ws) ← pJson ws; some ((q, j), ws)) rest with
+    | some (q, j) => some (showRes showQuery (unmarshalQueryInto q j))
+    | none => none
+  | ["duration", w, t] =>
+    match strTok 's' w, unitOfToken t with
+    | some s, some u => some (showGlue (parseDuration s.toList u))
+    | _, _ => none
+  | ["limit", w] =>
+    match strTok 's' w with
+    | some s => some (showGlue (visitLimit s.toList))
+    | none => none
+  | "cond" :: rest =>
+    match whole pCond rest with
+    | some c =>
+      let st := tagRun ⟨[], .nil⟩ c.walk
+      some s!"c {showOptExpr st.condition} stack {st.stack.length}"
+    | none => none
+  | _ => none
+
 /-! ### the interpreter -/
 
 def step (st : Unit) (ws : List String) : Unit × String :=
-  (st, match ws with
+  (st, match stepGlue ws with
+  | some out => out
+  | none =>
+  match ws with
   | "emarshal" :: rest =>
     match whole pExpr rest with
     | some e =>
